@@ -317,11 +317,11 @@ func closeBody(parts ...string) []byte {
 const mpCType = "multipart/form-data; boundary=" + boundary
 
 type upShape struct {
-	name    string
-	query   string
-	vars    string // "" = no variables key, otherwise JSON text
-	field   string
-	good    map[string]string // map path -> resolver arg path
+	name  string
+	query string
+	vars  string // "" = no variables key, otherwise JSON text
+	field string
+	good  map[string]string // map path -> resolver arg path
 }
 
 var upShapes = []upShape{
@@ -669,5 +669,33 @@ func enumC(tier string, emit emitFn) {
 		}
 		emit(&HTTPCase{Part: "c", Endpoint: "MULTIPART", Class: class, CType: ct, Body: full, Up: true, Exp: exp, Note: "c6 content-type " + ct})
 	}
+	// c7: the same variable shapes without any upload, as plain JSON POSTs against the upload
+	// schema (null members of nested lists are ordinary, well-formed input)
+	for _, v := range []string{`null`, `[]`, `[[]]`, `[[null]]`, `[null]`, `[[null],null]`} {
+		body := `{"query":"mutation($f:[[Upload]]){matrix(files:$f)}","variables":{"f":` + v + `}}`
+		emit(&HTTPCase{Part: "c", Endpoint: "POST", Class: "nested-list-variable-null-member", CType: "application/json", Body: []byte(body), Up: true,
+			Exp: Expect{Kind: "success", Data: `{"matrix":"matrix:0"}`}, Note: "c7 variables.f=" + v})
+	}
 	_ = bytes.Equal
+}
+
+// ---- (d0) broken websocket handshakes ------------------------------------------------------
+
+// enumHandshake: requests that carry an Upgrade header (so the Websocket transport takes
+// them) but are not a valid RFC 6455 opening handshake. The client must get a well-formed
+// 4xx error.
+func enumHandshake(emit emitFn) {
+	const full = "Connection: Upgrade\r\nUpgrade: websocket\r\nSec-WebSocket-Version: 13\r\nSec-WebSocket-Key: dGhlIHNhbXBsZSBub25jZQ==\r\n"
+	for _, h := range []struct{ name, text string }{
+		{"no-connection-header", "GET / HTTP/1.1\r\nHost: x\r\nUpgrade: websocket\r\n\r\n"},
+		{"no-version", "GET / HTTP/1.1\r\nHost: x\r\nConnection: Upgrade\r\nUpgrade: websocket\r\n\r\n"},
+		{"no-key", "GET / HTTP/1.1\r\nHost: x\r\nConnection: Upgrade\r\nUpgrade: websocket\r\nSec-WebSocket-Version: 13\r\n\r\n"},
+		{"bad-version", "GET / HTTP/1.1\r\nHost: x\r\nConnection: Upgrade\r\nUpgrade: websocket\r\nSec-WebSocket-Version: 8\r\nSec-WebSocket-Key: dGhlIHNhbXBsZSBub25jZQ==\r\n\r\n"},
+		{"other-upgrade-token", "GET / HTTP/1.1\r\nHost: x\r\nConnection: Upgrade\r\nUpgrade: h2c\r\n\r\n"},
+		{"post-method", "POST / HTTP/1.1\r\nHost: x\r\nContent-Length: 0\r\n" + full + "\r\n"},
+		{"foreign-origin", "GET / HTTP/1.1\r\nHost: x\r\nOrigin: http://elsewhere.example\r\n" + full + "\r\n"},
+	} {
+		emit(&HTTPCase{Part: "d", Endpoint: "WS-HANDSHAKE", Class: "bad-upgrade-request", RawReq: []byte(h.text),
+			Exp: Expect{Kind: "client-error"}, Note: "d0 " + h.name})
+	}
 }
